@@ -69,3 +69,9 @@ CASES += [
                 (FH, "   mpFormatter->formatMsg( msg_text, msg);", "   mpFormatter->formatMsg( formatted, msg);"),
                 (FH, "   mpFilePolicy->writeMessage( msg, msg_text.str());", "   mpFilePolicy->writeMessage( msg, formatted.str());")]),
 ]
+
+CASES += [
+    dict(id='c15-counted-books-lines', prop='C15', file='src/library/log/files/counted.cpp', expect='R3',
+         edits=[('src/library/log/files/counted.cpp', "void Counted::written( const detail::LogMsg&, const std::string&)\n{\n\n   ++mNumberOfEntries;", "void Counted::written( const detail::LogMsg&, const std::string& msg_text)\n{\n\n   mNumberOfEntries += 1 + std::count( msg_text.begin(), msg_text.end(), '\\n');"),
+                ('src/library/log/files/counted.cpp', "#include <stdexcept>", "#include <stdexcept>\n#include <algorithm>")]),
+]
